@@ -179,9 +179,10 @@ fn inexact_candidates(op: Op, args: &[&Opnd]) -> Option<Vec<f32>> {
                         push(acc);
                     }
                 }
-                // (b) exact prefix folded exactly, then converted
-                if n_exact_prefix >= 2 && args.len() >= 2 {
-                    let pre: Vec<RNum> = args[..n_exact_prefix].iter().map(|o| o.r).collect();
+                // (b) an exact prefix (of every length >= 2) folded exactly, then converted: the fold may leave exact
+                // arithmetic at the first intermediate it cannot represent and carry on with binary32 operations
+                for k in 2..=n_exact_prefix.min(args.len()) {
+                    let pre: Vec<RNum> = args[..k].iter().map(|o| o.r).collect();
                     // exact zero divisor inside the exact prefix: expected to be an error, handled by caller
                     if let Expect::Val(r) = exact_expected(op, &pre) {
                         // reduced conversion and unreduced (schoolbook) conversion
@@ -190,12 +191,12 @@ fn inexact_candidates(op: Op, args: &[&Opnd]) -> Option<Vec<f32>> {
                             // an unrepresentable exact intermediate may be carried on as an inexact number
                             starts.push((n as f64 / d as f64) as f32);
                         }
-                        if let Some((n, d)) = schoolbook(op, &args[..n_exact_prefix]) {
+                        if let Some((n, d)) = schoolbook(op, &args[..k]) {
                             starts.push(n as f32 / d as f32);
                         }
                         for s in starts {
                             let mut acc = s;
-                            for i in n_exact_prefix..args.len() {
+                            for i in k..args.len() {
                                 acc = f32_op(op, acc, conv(i));
                             }
                             push(acc);
@@ -464,15 +465,22 @@ pub fn run(ctx: &Ctx) {
 }
 
 fn random_case(ch: &mut Chooser) -> Report {
-    let arity = 1 + ch.weighted(&[2, 5, 3]);
+    // (the n-ary operations also with four and five operands, half of those taken from the grid)
+    let arity = 1 + ch.weighted(&[4, 10, 6, 3, 2]);
     let op = match arity {
         1 => *ch.pick(&UNARY),
         2 => *ch.pick(&BINARY),
         _ => *ch.pick(&TERNARY),
     };
+    let from_grid = arity >= 4 && ch.chance(1, 2);
+    let picks: Vec<u32> = (0..arity).map(|_| ch.below(1 << 16) as u32).collect();
     let ops: Vec<Opnd> = (0..arity).map(|_| random_opnd(ch)).collect();
-    let refs: Vec<&Opnd> = ops.iter().collect();
-    with_ns(|ns, _| judge(ns, op, &refs))
+    with_ns(|ns, g| {
+        let refs: Vec<&Opnd> = if from_grid { picks.iter().map(|k| &g[(*k as usize * g.len()) >> 16]).collect() } else { ops.iter().collect() };
+        let mut rep = judge(ns, op, &refs);
+        rep.label(format!("operands:{}", arity));
+        rep
+    })
 }
 
 #[allow(dead_code)]
